@@ -55,7 +55,7 @@ def find_apps(t, pat, out, depth=0):
             find_apps(a, pat, out, depth + 1)
 
 
-def run(thorough=False):
+def run(thorough=False, prop="C20"):
     try:
         mir, secs, cached = util.get()
         names = [n for n in mir.index if re.match(r"^heap::compare_pstr_slices::\{closure#\d+\}$", n)]
@@ -68,7 +68,7 @@ def run(thorough=False):
             raise core.Unsupported("closure computing the result not found")
         paths = core.Executor(body, max_depth=300, max_paths=3000).run("bb0")
     except Exception as e:  # noqa
-        log("  mirsmt C20: cannot analyse (%s)" % e)
+        log("  mirsmt %s (compare_pstr_slices):" % prop + " cannot analyse (%s)" % e)
         return {"exit": EXIT_INCONCLUSIVE, "mirsmt_error": str(e)}
     # capture fields of the closure that are used as byte slices, in order: slice1, slice2
     fields = set()
@@ -80,7 +80,7 @@ def run(thorough=False):
                     fields.add(f)
     order = sorted(fields)
     if len(order) != 2:
-        log("  mirsmt C20: expected two captured slices, found fields %s" % order)
+        log("  mirsmt %s (compare_pstr_slices):" % prop + " expected two captured slices, found fields %s" % order)
         return {"exit": EXIT_INCONCLUSIVE, "mirsmt_error": "captures not understood"}
 
     def slice_no(p, t):
@@ -134,6 +134,41 @@ def run(thorough=False):
             meta.append({"slice": k + 1, "own_offset_present": ok_flow, "expr": util.term_str(t)[:200]})
     if not queries:
         return {"exit": EXIT_INCONCLUSIVE, "mirsmt_error": "no TailIndex construction found"}
+    # the mismatch branch: both slices are re-read through a window around pos that must hold the
+    # whole character the byte at pos belongs to (up to 3 bytes before, up to 4 from pos on)
+    wins = {}
+    for p in paths:
+        for e in p.events:
+            if e[0] == "call" and re.search(r"Index<std::ops::Range<usize>>>::index$", e[1]) and \
+                    any(x[0] == "call" and x[1].endswith("utf8_chunks") and x[2] and x[2][0] == e[3]
+                        for x in p.events):
+                k = slice_no(p, e[2][0])
+                rng = e[2][1]
+                if k is not None and rng[0] == "agg" and "Range" in rng[1] and len(rng[2]) == 2:
+                    wins[k] = (e[2][0], rng[2][0], rng[2][1])
+    n_tail = len(queries)
+    if len(wins) != 2:
+        log("  mirsmt %s (compare_pstr_slices):" % prop + " mismatch windows of compare_pstr_slices not recognised (%d found)" % len(wins))
+        return {"exit": EXIT_INCONCLUSIVE, "mirsmt_error": "mismatch window not understood"}
+    if len(wins) == 2:
+        enc = Encoder(std_models=True)
+        pos = enc.bv(("s", "_2"))
+        parts = []
+        for k in (0, 1):
+            sl, st, en = wins[k]
+            ln = enc.bv(("op", "PtrMetadata", (sl,)))
+            s_, e_ = enc.bv(st), enc.bv(en)
+            pre = "(and (bvult %s %s) (bvult %s #x1000000000000000))" % (pos, ln, ln)
+            want = ("(and (bvule {s} {p}) (=> (bvuge {p} #x0000000000000003) (bvule {s} (bvsub {p} #x0000000000000003))) "
+                    "(=> (bvult {p} #x0000000000000003) (= {s} #x0000000000000000)) "
+                    "(bvuge {e} (ite (bvule (bvadd {p} #x0000000000000004) {l}) (bvadd {p} #x0000000000000004) {l})) "
+                    "(bvule {e} {l}))").format(s=s_, e=e_, p=pos, l=ln)
+            parts.append((pre, want, s_))
+        q = enc.decls() + "\n(assert (and %s %s))\n(assert (not (and %s %s (= %s %s))))" % (
+            parts[0][0], parts[1][0], parts[0][1], parts[1][1], parts[0][2], parts[1][2])
+        queries.append(q)
+        meta.append({"slice": 0, "own_offset_present": True, "window": True,
+                     "expr": "mismatch window: start <= pos-3 (or 0), end >= min(pos+4, len), same start on both slices"})
     br = smt.check_batch(queries, thorough=thorough)
     res = {"evaluations": len(queries), "distinct_nontrivial": 0, "samples": [],
            "mirsmt_regions": ["heap::compare_pstr_slices::{closure} (calculate_result)"],
@@ -147,20 +182,21 @@ def run(thorough=False):
         res["distinct_nontrivial"] += good
         if not good:
             viol.append({**m, "answer": r["answer"]})
-        res["samples"].append({"query": "TailIndex of slice %d == tail + (pos + offset_%d)/8" % (
-            m["slice"], m["slice"]), "answer": r["answer"], "expr": m["expr"]})
-    log("  mirsmt C20: %d tail-index constructions in compare_pstr_slices, %d match the "
-        "specification, %d violations (z3 %.2fs)" % (len(queries), res["distinct_nontrivial"],
-                                                      len(viol), br["z3_s"]))
+        res["samples"].append({"query": m["expr"] if m.get("window") else
+                               "TailIndex of slice %d == tail + (pos + offset_%d)/8" % (m["slice"], m["slice"]),
+                               "answer": r["answer"], "expr": m["expr"]})
+    log("  mirsmt %s (compare_pstr_slices):" % prop + " %d tail-index constructions + mismatch window in compare_pstr_slices, %d "
+        "obligations hold, %d violations (z3 %.2fs)" % (n_tail, res["distinct_nontrivial"],
+                                                        len(viol), br["z3_s"]))
     if viol:
         res["mirsmt_violations"] = viol
         from .. import prolog
-        rp = prolog.replay_string_suffix_compare(viol)
+        rp = prolog.replay_string_suffix_compare(viol, prop)
         if rp["reproduced"]:
-            log("VIOLATION property=C20 replay=%s" % rp["path"])
+            log("VIOLATION property=%s replay=%s" % (prop, rp["path"]))
             res["exit"] = EXIT_VIOLATION
         else:
-            log("  mirsmt C20: model did not reproduce on the binary (%s) -> inconclusive" %
+            log("  mirsmt %s (compare_pstr_slices):" % prop + " model did not reproduce on the binary (%s) -> inconclusive" %
                 rp.get("why"))
             res["exit"] = EXIT_INCONCLUSIVE
     return res
